@@ -75,6 +75,7 @@ def _path(clf, X, y=None, alpha_multiplier=1.05, min_features=2, keep_threshold=
 
     # Start by fitting the model using all features and without regularisation
     alpha = clf.alpha
+    initial_alpha = alpha
     clf.set_params(alpha=0)
 
     if clf.verbose:
@@ -171,5 +172,8 @@ def _path(clf, X, y=None, alpha_multiplier=1.05, min_features=2, keep_threshold=
             if clf.verbose:
                 print(f"This is definitely the best score so far within threshold: {iteration_gemini_score}, "
                       f"{best_gemini_score}")
+
+    # Leave the hyperparameter as the caller set it: the path only uses alpha as its starting point
+    clf.set_params(alpha=initial_alpha)
 
     return best_weights, geminis, group_lasso_penalties, alphas, n_features
